@@ -71,6 +71,7 @@ impl Work<Context, AnyWorkId, Error> for VerticalMetricsWork {
             .at(static_metadata.default_location());
 
         // Collate vertical metrics
+        let mut out_of_bounds = None;
         let builder =
             glyph_order
                 .iter()
@@ -84,8 +85,16 @@ impl Work<Context, AnyWorkId, Error> for VerticalMetricsWork {
 
                     let glyph = context.glyphs.get(&WorkId::GlyfFragment(gn.clone()).into());
 
-                    let side_bearing = vertical_origin
-                        - glyph.data.bbox().map(|bbox| bbox.y_max).unwrap_or_default();
+                    // the origin and the box are both in range; their distance need not be
+                    let y_max = glyph.data.bbox().map(|bbox| bbox.y_max).unwrap_or_default();
+                    let side_bearing = i16::try_from(vertical_origin as i32 - y_max as i32)
+                        .unwrap_or_else(|_| {
+                            out_of_bounds.get_or_insert(Error::OutOfBounds {
+                                what: format!("'{gn}' top side bearing"),
+                                value: (vertical_origin as i32 - y_max as i32).to_string(),
+                            });
+                            0
+                        });
                     let bounds_advance = glyph
                         .data
                         .bbox()
@@ -95,6 +104,9 @@ impl Work<Context, AnyWorkId, Error> for VerticalMetricsWork {
                     builder
                 });
 
+        if let Some(e) = out_of_bounds {
+            return Err(e);
+        }
         let metrics = builder.build();
 
         // Build and send vertical metrics tables out into the world
